@@ -55,55 +55,67 @@ pub open spec fn combos_seq(rp: RankPair) -> Seq<CardPair> {
 }
 
 /// the listed combos are exactly the denoted ones (6 / 4 / 12 of them)
-pub proof fn lemma_combos_meaning(rp: RankPair)
+pub proof fn lemma_combos_pocket(r: Rank)
     ensures
-        forall|cp: CardPair| combos_seq(rp).contains(cp) <==> in_rank_pair(cp, rp),
-        combos_seq(rp).len() == (match rp { RankPair::Pocket(_) => 6int, RankPair::Suited(_, _) => 4int, RankPair::Ofsuit(_, _) => 12int }),
+        forall|cp: CardPair| combos_seq(RankPair::Pocket(r)).contains(cp) <==> in_rank_pair(cp, RankPair::Pocket(r)),
+        combos_seq(RankPair::Pocket(r)).len() == 6,
 {
+    let rp = RankPair::Pocket(r);
     let s = combos_seq(rp);
+    assert(s[0] == pair_of(mk_card(r, 0), mk_card(r, 1)) && s[1] == pair_of(mk_card(r, 0), mk_card(r, 2)) && s[2] == pair_of(mk_card(r, 0), mk_card(r, 3))
+        && s[3] == pair_of(mk_card(r, 1), mk_card(r, 2)) && s[4] == pair_of(mk_card(r, 1), mk_card(r, 3)) && s[5] == pair_of(mk_card(r, 2), mk_card(r, 3)));
     assert forall|cp: CardPair| s.contains(cp) implies in_rank_pair(cp, rp) by {
         let k = choose|k: int| 0 <= k < s.len() && s[k] == cp;
-        match rp {
-            RankPair::Pocket(r) => {
-                if k == 0 { assert(cp == pair_of(mk_card(r, 0), mk_card(r, 1))); }
-                else if k == 1 { assert(cp == pair_of(mk_card(r, 0), mk_card(r, 2))); }
-                else if k == 2 { assert(cp == pair_of(mk_card(r, 0), mk_card(r, 3))); }
-                else if k == 3 { assert(cp == pair_of(mk_card(r, 1), mk_card(r, 2))); }
-                else if k == 4 { assert(cp == pair_of(mk_card(r, 1), mk_card(r, 3))); }
-                else { assert(cp == pair_of(mk_card(r, 2), mk_card(r, 3))); }
-            }
-            RankPair::Suited(h, kk) => {
-                if k == 0 { assert(cp == pair_of(mk_card(h, 0), mk_card(kk, 0))); }
-                else if k == 1 { assert(cp == pair_of(mk_card(h, 1), mk_card(kk, 1))); }
-                else if k == 2 { assert(cp == pair_of(mk_card(h, 2), mk_card(kk, 2))); }
-                else { assert(cp == pair_of(mk_card(h, 3), mk_card(kk, 3))); }
-            }
-            RankPair::Ofsuit(h, kk) => {
-                let i = k / 3;
-                let j0 = k % 3;
-                let j = if j0 >= i { j0 + 1 } else { j0 };
-                assert(0 <= i < 4 && 0 <= j < 4 && i != j);
-                assert(cp == pair_of(mk_card(h, i), mk_card(kk, j)));
-            }
-        }
+        assert(0 <= k < 6);
     }
     assert forall|cp: CardPair| in_rank_pair(cp, rp) implies s.contains(cp) by {
-        match rp {
-            RankPair::Pocket(r) => {
-                let (i, j) = choose|i: int, j: int| 0 <= i < j < 4 && cp == #[trigger] pair_of(mk_card(r, i), mk_card(r, j));
-                let k = if i == 0 { j - 1 } else if i == 1 { j + 1 } else { 5 };
-                assert(s[k] == cp);
-            }
-            RankPair::Suited(h, kk) => {
-                let i = choose|i: int| 0 <= i < 4 && cp == #[trigger] pair_of(mk_card(h, i), mk_card(kk, i));
-                assert(s[i] == cp);
-            }
-            RankPair::Ofsuit(h, kk) => {
-                let (i, j) = choose|i: int, j: int| 0 <= i < 4 && 0 <= j < 4 && i != j && cp == #[trigger] pair_of(mk_card(h, i), mk_card(kk, j));
-                let k = 3 * i + (if j > i { j - 1 } else { j });
-                assert(s[k] == cp);
-            }
-        }
+        let (i, j) = choose|i: int, j: int| 0 <= i < j < 4 && cp == #[trigger] pair_of(mk_card(r, i), mk_card(r, j));
+        let k = if i == 0 { j - 1 } else if i == 1 { j + 1 } else { 5int };
+        assert(s[k] == cp);
+    }
+}
+
+pub proof fn lemma_combos_suited(h: Rank, kk: Rank)
+    ensures
+        forall|cp: CardPair| combos_seq(RankPair::Suited(h, kk)).contains(cp) <==> in_rank_pair(cp, RankPair::Suited(h, kk)),
+        combos_seq(RankPair::Suited(h, kk)).len() == 4,
+{
+    let rp = RankPair::Suited(h, kk);
+    let s = combos_seq(rp);
+    assert(s[0] == pair_of(mk_card(h, 0), mk_card(kk, 0)) && s[1] == pair_of(mk_card(h, 1), mk_card(kk, 1))
+        && s[2] == pair_of(mk_card(h, 2), mk_card(kk, 2)) && s[3] == pair_of(mk_card(h, 3), mk_card(kk, 3)));
+    assert forall|cp: CardPair| s.contains(cp) implies in_rank_pair(cp, rp) by {
+        let k = choose|k: int| 0 <= k < s.len() && s[k] == cp;
+        assert(0 <= k < 4);
+    }
+    assert forall|cp: CardPair| in_rank_pair(cp, rp) implies s.contains(cp) by {
+        let i = choose|i: int| 0 <= i < 4 && cp == #[trigger] pair_of(mk_card(h, i), mk_card(kk, i));
+        assert(s[i] == cp);
+    }
+}
+
+pub open spec fn ofs_idx(i: int, j: int) -> int { 3 * i + (if j > i { j - 1 } else { j }) }
+
+pub proof fn lemma_combos_ofsuit(h: Rank, kk: Rank)
+    ensures
+        forall|cp: CardPair| combos_seq(RankPair::Ofsuit(h, kk)).contains(cp) <==> in_rank_pair(cp, RankPair::Ofsuit(h, kk)),
+        combos_seq(RankPair::Ofsuit(h, kk)).len() == 12,
+{
+    let rp = RankPair::Ofsuit(h, kk);
+    let s = combos_seq(rp);
+    assert(s[0] == pair_of(mk_card(h, 0), mk_card(kk, 1)) && s[1] == pair_of(mk_card(h, 0), mk_card(kk, 2)) && s[2] == pair_of(mk_card(h, 0), mk_card(kk, 3)));
+    assert(s[3] == pair_of(mk_card(h, 1), mk_card(kk, 0)) && s[4] == pair_of(mk_card(h, 1), mk_card(kk, 2)) && s[5] == pair_of(mk_card(h, 1), mk_card(kk, 3)));
+    assert(s[6] == pair_of(mk_card(h, 2), mk_card(kk, 0)) && s[7] == pair_of(mk_card(h, 2), mk_card(kk, 1)) && s[8] == pair_of(mk_card(h, 2), mk_card(kk, 3)));
+    assert(s[9] == pair_of(mk_card(h, 3), mk_card(kk, 0)) && s[10] == pair_of(mk_card(h, 3), mk_card(kk, 1)) && s[11] == pair_of(mk_card(h, 3), mk_card(kk, 2)));
+    assert forall|cp: CardPair| s.contains(cp) implies in_rank_pair(cp, rp) by {
+        let k = choose|k: int| 0 <= k < s.len() && s[k] == cp;
+        assert(0 <= k < 12);
+    }
+    assert forall|cp: CardPair| in_rank_pair(cp, rp) implies s.contains(cp) by {
+        let (i, j) = choose|i: int, j: int| 0 <= i < 4 && 0 <= j < 4 && i != j && cp == #[trigger] pair_of(mk_card(h, i), mk_card(kk, j));
+        let k = ofs_idx(i, j);
+        assert(0 <= k < 12);
+        assert(s[k] == cp);
     }
 }
 
@@ -135,48 +147,130 @@ pub open spec fn range_seq(a: int, b: int) -> Seq<Rank> {
     Seq::new((if b >= a { b - a + 1 } else { 0int }) as nat, |i: int| rank_of_code(a + i))
 }
 
-pub open spec fn block(rp: RankPair, p: f32) -> Seq<(CardPair, f32)> {
-    combos_seq(rp).map_values(|cp: CardPair| (cp, p))
-}
-
-/// kind of rank pair swept by a span: 0 pocket, 1 suited under `high`, 2 offsuit under `high`
+/// combos swept by a span of rank pairs of one kind (0 pocket, 1 suited under `high`, 2 offsuit under `high`)
 pub open spec fn mk_rp(kind: int, high: Rank, r: Rank) -> RankPair {
     if kind == 0 { RankPair::Pocket(r) } else if kind == 1 { RankPair::Suited(high, r) } else { RankPair::Ofsuit(high, r) }
 }
 
-pub open spec fn expand_ranks(kind: int, high: Rank, rs: Seq<Rank>, n: int, p: f32) -> Seq<(CardPair, f32)>
+pub open spec fn expand_ranks(kind: int, high: Rank, rs: Seq<Rank>, n: int) -> Seq<CardPair>
     decreases n
 {
-    if n <= 0 { Seq::empty() } else { expand_ranks(kind, high, rs, n - 1, p) + block(mk_rp(kind, high, rs[n - 1]), p) }
+    if n <= 0 { Seq::empty() } else { expand_ranks(kind, high, rs, n - 1) + combos_seq(mk_rp(kind, high, rs[n - 1])) }
 }
 
-pub open spec fn span(kind: int, high: Rank, a: int, b: int, p: f32) -> Seq<(CardPair, f32)> {
-    expand_ranks(kind, high, range_seq(a, b), range_seq(a, b).len() as int, p)
+pub open spec fn span(kind: int, high: Rank, a: int, b: int) -> Seq<CardPair> {
+    expand_ranks(kind, high, range_seq(a, b), range_seq(a, b).len() as int)
 }
 
-/// what a token expands to (standard notation, DESIGN.md C05)
-pub open spec fn expand_seq(t: HandRangeToken) -> Seq<(CardPair, f32)> {
-    let p = t.probability;
+/// the combos a token expands to, in order (standard notation, DESIGN.md C05); each carries the token's weight
+pub open spec fn expand_combos(t: HandRangeToken) -> Seq<CardPair> {
     match t.kind {
         HandRangeTokenKind::BottomClosedRankPairRange(rp) => match rp {
             // 'QQ+': every pair of queens or better
-            RankPair::Pocket(x) => span(0, x, 0, rank_code(x), p),
+            RankPair::Pocket(x) => span(0, x, 0, rank_code(x)),
             // 'A9s+': ace-king down to ace-nine
-            RankPair::Suited(h, k) => span(1, h, rank_code(h) + 1, rank_code(k), p),
-            RankPair::Ofsuit(h, k) => span(2, h, rank_code(h) + 1, rank_code(k), p),
+            RankPair::Suited(h, k) => span(1, h, rank_code(h) + 1, rank_code(k)),
+            RankPair::Ofsuit(h, k) => span(2, h, rank_code(h) + 1, rank_code(k)),
         },
         HandRangeTokenKind::DoubleClosedRankPairRange(rp, e) => match rp {
             // '88-66', 'AQs-A9s': inclusive spans
-            RankPair::Pocket(a) => span(0, a, rank_code(a), rank_code(e), p),
-            RankPair::Suited(h, k) => span(1, h, rank_code(k), rank_code(e), p),
-            RankPair::Ofsuit(h, k) => span(2, h, rank_code(k), rank_code(e), p),
+            RankPair::Pocket(a) => span(0, a, rank_code(a), rank_code(e)),
+            RankPair::Suited(h, k) => span(1, h, rank_code(k), rank_code(e)),
+            RankPair::Ofsuit(h, k) => span(2, h, rank_code(k), rank_code(e)),
         },
-        HandRangeTokenKind::SingleRankPair(rp) => block(rp, p),
-        HandRangeTokenKind::SingleCardPair(cp) => seq![(cp, p)],
+        HandRangeTokenKind::SingleRankPair(rp) => combos_seq(rp),
+        HandRangeTokenKind::SingleCardPair(cp) => seq![cp],
     }
 }
 
-/// C10 at value level: every combo a well-formed token expands to has two different cards and the token's weight
-pub open spec fn entries_ok(s: Seq<(CardPair, f32)>, p: f32) -> bool {
-    forall|i: int| 0 <= i < s.len() ==> (#[trigger] s[i]).1 == p && s[i].0.0 != s[i].0.1
+/// typing witness for the f32 field (Verus does not emit the typing fact for f32 struct fields by itself)
+pub open spec fn tok_p(t: HandRangeToken) -> f32 { t.probability }
+
+// ---------- C10 at value level: expansions hold pairs of two different cards ----------
+
+pub open spec fn two_cards(cp: CardPair) -> bool { cp.0 != cp.1 }
+
+pub proof fn lemma_combos_distinct(rp: RankPair)
+    requires match rp { RankPair::Pocket(_) => true, RankPair::Suited(h, k) => h != k, RankPair::Ofsuit(h, k) => h != k },
+    ensures forall|i: int| 0 <= i < combos_seq(rp).len() ==> two_cards(#[trigger] combos_seq(rp)[i]),
+{
+    match rp {
+        RankPair::Pocket(r) => {}
+        RankPair::Suited(h, k) => {}
+        RankPair::Ofsuit(h, k) => {}
+    }
+}
+
+pub proof fn lemma_expand_ranks_distinct(kind: int, high: Rank, rs: Seq<Rank>, n: int)
+    requires 0 <= n <= rs.len(), 0 <= kind <= 2, forall|j: int| 0 <= j < n ==> kind == 0 || #[trigger] rs[j] != high,
+    ensures forall|i: int| 0 <= i < expand_ranks(kind, high, rs, n).len() ==> two_cards(#[trigger] expand_ranks(kind, high, rs, n)[i]),
+    decreases n
+{
+    if n > 0 {
+        lemma_expand_ranks_distinct(kind, high, rs, n - 1);
+        assert(kind == 0 || rs[n - 1] != high);
+        lemma_combos_distinct(mk_rp(kind, high, rs[n - 1]));
+        let prev = expand_ranks(kind, high, rs, n - 1);
+        let cs = combos_seq(mk_rp(kind, high, rs[n - 1]));
+        let all = expand_ranks(kind, high, rs, n);
+        assert(all =~= prev + cs);
+        assert forall|i: int| 0 <= i < all.len() implies two_cards(#[trigger] all[i]) by {
+            if i < prev.len() { assert(all[i] == prev[i]); } else { assert(all[i] == cs[i - prev.len()]); }
+        }
+    }
+}
+
+pub proof fn lemma_range_seq(a: int, b: int)
+    requires 0 <= a, b <= 12,
+    ensures forall|j: int| 0 <= j < range_seq(a, b).len() ==> a <= rank_code(#[trigger] range_seq(a, b)[j]) <= b && rank_code(range_seq(a, b)[j]) == a + j,
+{
+}
+
+/// every combo a well-formed token expands to consists of two different cards
+pub proof fn lemma_token_distinct(t: HandRangeToken)
+    requires token_wf(t),
+    ensures forall|i: int| 0 <= i < expand_combos(t).len() ==> two_cards(#[trigger] expand_combos(t)[i]),
+{
+    match t.kind {
+        HandRangeTokenKind::BottomClosedRankPairRange(rp) => match rp {
+            RankPair::Pocket(x) => {
+                lemma_rank_codes(x);
+                let rs = range_seq(0, rank_code(x));
+                lemma_expand_ranks_distinct(0, x, rs, rs.len() as int);
+            }
+            RankPair::Suited(h, k) => {
+                lemma_rank_codes(h); lemma_rank_codes(k);
+                let rs = range_seq(rank_code(h) + 1, rank_code(k));
+                lemma_range_seq(rank_code(h) + 1, rank_code(k));
+                lemma_expand_ranks_distinct(1, h, rs, rs.len() as int);
+            }
+            RankPair::Ofsuit(h, k) => {
+                lemma_rank_codes(h); lemma_rank_codes(k);
+                let rs = range_seq(rank_code(h) + 1, rank_code(k));
+                lemma_range_seq(rank_code(h) + 1, rank_code(k));
+                lemma_expand_ranks_distinct(2, h, rs, rs.len() as int);
+            }
+        },
+        HandRangeTokenKind::DoubleClosedRankPairRange(rp, e) => match rp {
+            RankPair::Pocket(a) => {
+                lemma_rank_codes(a); lemma_rank_codes(e);
+                let rs = range_seq(rank_code(a), rank_code(e));
+                lemma_expand_ranks_distinct(0, a, rs, rs.len() as int);
+            }
+            RankPair::Suited(h, k) => {
+                lemma_rank_codes(h); lemma_rank_codes(k); lemma_rank_codes(e);
+                let rs = range_seq(rank_code(k), rank_code(e));
+                lemma_range_seq(rank_code(k), rank_code(e));
+                lemma_expand_ranks_distinct(1, h, rs, rs.len() as int);
+            }
+            RankPair::Ofsuit(h, k) => {
+                lemma_rank_codes(h); lemma_rank_codes(k); lemma_rank_codes(e);
+                let rs = range_seq(rank_code(k), rank_code(e));
+                lemma_range_seq(rank_code(k), rank_code(e));
+                lemma_expand_ranks_distinct(2, h, rs, rs.len() as int);
+            }
+        },
+        HandRangeTokenKind::SingleRankPair(rp) => { lemma_combos_distinct(rp); }
+        HandRangeTokenKind::SingleCardPair(cp) => {}
+    }
 }
